@@ -27,6 +27,7 @@ def oracle_pass(chk, scripts, traces, props, pristine=False):
         cfg = sc['config']
         changed = False
         prevg = None
+        ret = fsoracle.Retired()
         for rec in recs:
             ev = sc['events'][rec['seq']] if rec['seq'] >= 0 else {}
             if ev.get('op') == 'Reconfigure' and rec['reply']['class'] == 'ok' and ev['config'] != '__CURRENT__':
@@ -34,6 +35,7 @@ def oracle_pass(chk, scripts, traces, props, pristine=False):
                 cfg = ev['config']
             fs = fsoracle.ta_state_findings(rec, cfg, sc['_machine'], prevg)
             prevg = {g['id']: g for g in ((rec.get('ta') or {}).get('grants') or [])}
+            fs += ret.step(ev, rec)
             if pristine and rec.get('tag') == 'quiescent':
                 fs += fsoracle.ta_pristine_findings(recs[0], rec, not changed)
             for f in fs:
